@@ -619,13 +619,8 @@ func (t *Template) RenderTo(w io.Writer, context map[string]interface{}) error {
 
 	// Check if it's a RootNode that supports release
 	if rootNode, ok := t.nodes.(*RootNode); ok {
-		err := rootNode.Render(w, ctx)
-		// Don't release during rendering in case of extends nodes
-		// Only release when we're sure rendering is complete
-		if !ctx.extending {
-			defer rootNode.Release()
-		}
-		return err
+		// The node tree belongs to the template for as long as it is cached
+		return rootNode.Render(w, ctx)
 	}
 
 	// For other node types
